@@ -338,7 +338,8 @@ theorem C12_gmin_is_global_minimum (es : List α) (hne : es ≠ []) :
     obtain ⟨v, h1, h2, h3⟩ := this
     refine ⟨?_, v, h1, h2, h3⟩
     by_contra h
-    rw [argmin, List.getElem?_eq_none (not_lt.mp h)] at h1
+    have h' : (x :: t).length ≤ argminFrom t 1 0 x := not_lt.mp h
+    rw [List.getElem?_eq_none h'] at h1
     exact absurd h1 (by simp)
 
 end oracles
@@ -647,17 +648,6 @@ end props
 
 /-! ### non-vacuity -/
 
-/-- four minima on a line at 0, 1, 3, 7 (squared distances): generic; 0–1 connected, 2 and 3
-    isolated, global minimum 1.  The model's own argsort satisfies the contract, the closest
-    enumeration with N = 1 is {0,1},{1,2},{2,3}, the bridge scheme proposes {1,2},{2,3}. -/
-example :
-    let d : Nat → Nat → Int := fun i j => (([0, 1, 3, 7].getD i 0 : Int) - [0, 1, 3, 7].getD j 0) ^ 2
-    let comp : Nat → Nat := fun k => [0, 0, 1, 2].getD k 0
-    genericB d 4 = true ∧
-    canon (closestEnumeration ref 4 1 (fun i => argsort (d i) 4)) = [(0, 1), (1, 2), (2, 3)] ∧
-    canon (connectUnconnected ref 4 1 comp (fun i => argsort (d i) 4) 1) = [(1, 2), (2, 3)] := by
-  decide +kernel
-
 /-- the `[0, 0]` filter drops the literal pair `[0, 0]` and nothing else: the self-pair `[3, 3]`
     survives, `[1, 0]` and `[0, 1]` are one pair -/
 example : uniquePairs ref [(0, 0), (3, 3), (1, 0), (0, 1)] = [(3, 3), (0, 1)] := by decide
@@ -691,5 +681,21 @@ theorem genericB_iff {α : Type} [LinearOrder α] [Zero α] (d : Nat → Nat →
       by_cases e : j = k
       · exact Or.inl e
       · exact Or.inr (h2 j k hj hk e)
+
+/-- four minima on a line at 0, 1, 3, 7 (squared distances): generic; 0–1 connected, 2 and 3
+    isolated, global minimum 1.  The argsorted rows satisfy the contract, the closest enumeration
+    with N = 1 is {0,1},{1,2},{2,3}, the bridge scheme proposes {1,2},{2,3}: the hypotheses of the
+    theorems above are satisfiable and the conclusions are not trivial. -/
+example :
+    let d : Nat → Nat → Int := fun i j => (([0, 1, 3, 7].getD i 0 : Int) - [0, 1, 3, 7].getD j 0) ^ 2
+    let sorted : Nat → List Nat := fun i => [[0, 1, 2, 3], [1, 0, 2, 3], [2, 1, 0, 3], [3, 2, 1, 0]].getD i []
+    let comp : Nat → Nat := fun k => [0, 0, 1, 2].getD k 0
+    Generic d 4 ∧ (∀ i, i < 4 → SortedPerm (d i) 4 (sorted i)) ∧
+    closestEnumeration ref 4 1 sorted = [(0, 1), (1, 2), (2, 3)] ∧
+    connectUnconnected ref 4 1 comp sorted 1 = [(1, 2), (2, 3)] := by
+  intro d sorted comp
+  refine ⟨(genericB_iff d 4).mp (by decide), ?_, by decide, by decide⟩
+  unfold SortedPerm
+  decide
 
 end TopSearch.Props.C12
